@@ -120,6 +120,8 @@ def judge_resp(v, obs):
     routes = [("value", obs)]
     if isinstance(obs.get("str"), dict):
         routes.append(("str", obs["str"]))
+    if isinstance(obs.get("rdr"), dict):
+        routes.append(("reader", obs["rdr"]))
     for rname, o in routes:
         if exp["ok"]:
             if not o.get("ok"):
